@@ -185,13 +185,16 @@ Qed.
 Lemma zlen_N {A} (l : list A) : Z.to_N (zlen l) = N.of_nat (length l).
 Proof. unfold zlen. lia. Qed.
 
-Lemma varstr_frame_spec v r : len64 v ->
+Lemma varstr_frame_spec v r : len63 v ->
   stream_varstr v = Ret (ser_bytes v) /\ parse_varstr (ser_bytes v ++ r) = Ret (v, r).
 Proof.
-  intros H. unfold len64 in H. assert (Hn : 0 <= zlen v < 2 ^ 64) by (unfold zlen in *; lia).
+  intros H. unfold len63 in H. assert (Hn : 0 <= zlen v < 2 ^ 64) by (unfold zlen in *; lia).
   unfold stream_varstr, parse_varstr, ser_bytes. rewrite <- zlen_N, stream_varint_spec by exact Hn.
   split; [reflexivity|]. rewrite <- app_assoc.
-  destruct (varint_frame_spec (zlen v) (v ++ r) Hn) as [-> _]. rewrite zlen_N, readN_app. reflexivity.
+  destruct (varint_frame_spec (zlen v) (v ++ r) Hn) as [-> _].
+  change (2 ^ 63) with 9223372036854775808 in H.
+  replace (9223372036854775808 <=? Z.to_N (zlen v))%N with false by lia.
+  rewrite zlen_N, readN_app. reflexivity.
 Qed.
 
 Lemma ser_bytes_length v : (1 <= length (ser_bytes v))%nat.
@@ -546,11 +549,15 @@ Proof. unfold readN, read. destruct (_ <=? _)%N; cbn [snd length]; [lia|]. rewri
 Lemma parse_varstr_consumes : consumes parse_varstr.
 Proof.
   intros s v r. unfold parse_varstr. destruct (parse_varint s) as [[n s1]| |] eqn:E; try discriminate.
-  apply parse_varint_consumes in E. intros E2. injection E2 as E2. pose proof (readN_shrinks n s1).
+  apply parse_varint_consumes in E. destruct (_ <=? n)%N; [discriminate|].
+  intros E2. injection E2 as E2. pose proof (readN_shrinks n s1).
   rewrite E2 in H. cbn [snd] in H. lia.
 Qed.
 Lemma parse_varstr_no_oof : no_oof parse_varstr.
-Proof. intros s. unfold parse_varstr. pose proof (parse_varint_no_oof s). destruct (parse_varint s) as [[? ?]| |]; congruence. Qed.
+Proof.
+  intros s. unfold parse_varstr. pose proof (parse_varint_no_oof s).
+  destruct (parse_varint s) as [[n ?]| |]; try congruence. destruct (_ <=? n)%N; discriminate.
+Qed.
 
 Lemma parse_txin_consumes : consumes parse_txin.
 Proof.
